@@ -3,6 +3,7 @@
 //! Coq terms (case files) for the model and the property oracle to judge.
 mod c10;
 mod c14;
+mod c15;
 mod consts;
 mod coqfmt;
 mod rng;
@@ -67,6 +68,7 @@ fn main() {
         "consts" => consts::run(),
         "c10" => c10::run(&a),
         "c14" => c14::run(&a),
+        "c15" => c15::run(&a),
         other => {
             eprintln!("unknown property driver {}", other);
             std::process::exit(2);
